@@ -12,6 +12,10 @@ package algo
 //@ spec func lowerc(r rune) rune = (65 <= r && r <= 90) ? r + 32 : (r > 127 ? lower(r) : r)
 //@ spec func foldc(cs bool, nz bool, r rune) rune = nz ? norm(cs ? r : lowerc(r)) : (cs ? r : lowerc(r))
 //@ spec func hitp(c *util.Chars, i int, p []rune, k int, cs bool, nz bool) bool = foldc(cs, nz, at(c, i)) == p[k]
+// hitq is hitp behind an opaque name: facts about the positions collected so far are carried through loops as
+// atoms (the case analysis inside hitp is not re-done for every kept element); `reveal hitq` gives the definition back.
+//@ spec func hitq(c *util.Chars, i int, p []rune, k int, cs bool, nz bool) bool = hitp(c, i, p, k, cs, nz)
+//@ opaque hitq
 
 // Global tables: the ranges below hold in the zero state and after Init().
 //@ globalinv forall(c, 0, 128, 0 <= asciiCharClasses[c] && asciiCharClasses[c] <= 6)
@@ -141,6 +145,7 @@ package algo
 
 //@ func calculateScore
 //@ property C02 C03
+//@ reveal hitq
 //@ ensures[C03] r0 == scS(text, pattern, caseSensitive, normalize, sidx, eidx)
 //@ requires text != nil && validChars(text) && validRunes(pattern) && 0 <= sidx && sidx <= eidx && eidx <= clen(text) && len(pattern) <= 2147483648
 //@ requires forall(i, sidx, eidx, g(text, pattern, caseSensitive, normalize, sidx, i) < len(pattern))
@@ -148,6 +153,7 @@ package algo
 //@ ensures withPos ==> r1 != nil && fresh(r1) && len(*r1) == g(text, pattern, caseSensitive, normalize, sidx, eidx)
 //@ ensures withPos ==> forall(k, 0, len(*r1), sidx <= (*r1)[k] && (*r1)[k] < eidx && hitp(text, (*r1)[k], pattern, k, caseSensitive, normalize))
 //@ ensures withPos ==> forall(k, 1, len(*r1), (*r1)[k-1] < (*r1)[k])
+//@ assert @"score += scoreMatch" hitq(text, idx, pattern, pidx, caseSensitive, normalize)
 //@ loop 1
 //@   invariant sidx <= idx && idx <= eidx && pidx == g(text, pattern, caseSensitive, normalize, sidx, idx) && 0 <= pidx
 //@   invariant 0 <= prevClass && prevClass <= 6 && 0 <= consecutive && 0 <= firstBonus && firstBonus <= 10
@@ -156,7 +162,8 @@ package algo
 //@   invariant[C03] inGap == (idx > sidx && !stepHit(text, pattern, caseSensitive, normalize, sidx, idx - 1))
 //@   invariant withPos ==> pos != nil && fresh(pos) && fresh(*pos) && len(*pos) == pidx
 //@   invariant !withPos ==> pos == nil
-//@   invariant withPos ==> forall(k, 0, pidx, sidx <= (*pos)[k] && (*pos)[k] < idx && hitp(text, (*pos)[k], pattern, k, caseSensitive, normalize))
+//@   invariant withPos ==> forall(k, 0, pidx, sidx <= (*pos)[k] && (*pos)[k] < idx)
+//@   invariant withPos ==> forall(k, 0, len(*pos), hitq(text, (*pos)[k], pattern, k, caseSensitive, normalize), (*pos)[k])
 //@   invariant withPos ==> forall(k, 1, pidx, (*pos)[k-1] < (*pos)[k])
 //@   decreases eidx - idx
 
@@ -359,3 +366,11 @@ package algo
 //@   invariant forall(k, 0, iter + 1, 0 <= Hleft[k] && Hleft[k] <= 26 * pidx + 36)
 //@   invariant forall(k, 0, iter, 0 <= Csub[k] && Csub[k] <= pidx + 1 && Csub[k] <= f - f0 + k + 1)
 //@   invariant 0 <= maxScore && maxScore <= 26 * pidx + 36 && 0 <= maxScorePos && maxScorePos <= lastIdx
+
+// NormalizeRunes returns a fresh copy of the same length (accent folding through the normalized table).
+//@ func NormalizeRunes
+//@ property C01
+//@ ensures fresh(result) && len(result) == len(runes)
+//@ loop 1
+//@   writes ret[*]
+//@   invariant len(ret) == len(runes) && fresh(ret)
